@@ -7,6 +7,7 @@
 //   buffered bytes, in order, before a chunk that arrives after the switch.
 #include "../sync_ondata/scripted_engine.h"
 #include "replay_io.h"
+#include <thread>
 int main(int argc, char **argv) {
   auto in = replay_io::load(argv[1]);
   std::vector<uint8_t> ch = replay_io::bytes(in["CH"]), rd = replay_io::bytes(in["RD"]);
@@ -14,6 +15,22 @@ int main(int argc, char **argv) {
   if (rd.empty()) rd.push_back(64);
   size_t closeAt = in.count("CLOSE_AT") ? replay_io::u64(in["CLOSE_AT"]) : ch.size() + 1;
   bool flush = in.count("FLUSH") && replay_io::u64(in["FLUSH"]);
+  if (in.count("SCEN") && replay_io::u64(in["SCEN"]) == 3) {
+    // clauses RC1/RC2: a reader parked in receiveSyncCancellable; the token is cancelled and 4 bytes arrive within the same sub-wait
+    auto eng = std::make_unique<ScriptedEngine>(); ScriptedEngine *e = eng.get();
+    auto t = Transport::withEngine(std::move(eng), TransportConfig{});
+    t->setReadMode(7, ReadMode::Sync);
+    CancellationToken tok; std::string first; bool ok1 = false; TransportError c1 = TransportError::None;
+    std::thread th([&] { uint8_t b[16]; size_t len = sizeof b; auto r = t->receiveSyncCancellable(7, b, len, tok, std::chrono::milliseconds(3000)); ok1 = r.isOk(); if (ok1) first.assign((const char *)b, r.value()); else c1 = r.error().code; });
+    for (;;) { std::this_thread::sleep_for(std::chrono::milliseconds(2)); std::lock_guard<std::mutex> lk(t->_impl->syncMutex); if (t->_impl->activeReceives == 1) break; }
+    tok.cancel();
+    e->cbs.onData(7, iora::core::BufferView((const uint8_t *)"WXYZ", 4), std::chrono::steady_clock::now());
+    th.join();
+    uint8_t b2[16]; size_t l2 = sizeof b2; auto r2 = t->receiveSync(7, b2, l2, std::chrono::milliseconds(50)); std::string second; if (r2.isOk()) second.assign((const char *)b2, r2.value());
+    printf("parked; cancel(); WXYZ arrives in the same sub-wait -> cancellable call: %s \"%s\" code=%d; follow-up receiveSync: \"%s\"\n", ok1 ? "ok" : "err", first.c_str(), (int)c1, second.c_str());
+    if (first + second != "WXYZ") replay_io::fail("RC1/RC2 (C03): bytes drained from the sync buffer were dropped - Cancelled was returned although receiveSync had already taken WXYZ (undetectable gap)");
+    replay_io::ok("no drained byte was dropped"); return 0;
+  }
   if (in.count("SCEN") && replay_io::u64(in["SCEN"]) == 2) {
     // history for clause Q1: Sync, "AB" arrives, setReadMode(Disabled), setReadMode(Async), "CD" arrives
     TransportConfig cfg; auto eng = std::make_unique<ScriptedEngine>(); ScriptedEngine *e = eng.get();
